@@ -367,7 +367,7 @@ func TestProp(t *testing.T) {
 		if err != nil {
 			rep.Inconclusive("two-service stack did not start: " + err.Error())
 		} else {
-			n := env.Pick(320, 10000)
+			n := env.Pick(320, 8000)
 			start := time.Now()
 			vh.ForEach(n, 32, only, func(i int) { runHistory(w, rep, env, i) })
 			rep.Extra("wall_histories_s", time.Since(start).Seconds())
@@ -387,12 +387,12 @@ func TestProp(t *testing.T) {
 	}
 
 	floors := map[string]int{
-		"histories_complete":                     env.Pick(150, 5000),
+		"histories_complete":                     env.Pick(150, 4000),
 		"old_proxy_cookie_refused_after_lapse":   env.Pick(20, 600),
 		"stay_signed_in_after_failed_revoke":     env.Pick(15, 500),
 		"invalid_return_address_refused":         env.Pick(40, 1200),
-		"proxy_sign_out_url_accepted_by_auth":    env.Pick(150, 5000),
-		"post_success_cleared_and_returned":      env.Pick(30, 1000),
+		"proxy_sign_out_url_accepted_by_auth":    env.Pick(150, 4000),
+		"post_success_cleared_and_returned":      env.Pick(30, 800),
 		"old_auth_cookie_refused_after_sign_out": env.Pick(20, 600),
 	}
 	for _, o := range revokeOutcomes {
